@@ -327,7 +327,7 @@ def run(ctx):
     else:
         everything = lambda s, p, d, f: True  # noqa: E731
         msg_cases += run_msg(ctx, clock, dyn, faults, full, everything)
-        msg_cases += run_msg(ctx, clock, principal, faults, others, everything)
+        msg_cases += run_msg(ctx, clock, principal[:3], faults, others, everything)
         traces += run_svc(ctx, clock, [s for s in coupled if s["reg"] == "dynamic"], faults, everything)
         traces += run_svc(ctx, clock, [s for s in H.SETTINGS if not (s in coupled and s["reg"] == "dynamic")], faults,
                           main_delivery)
